@@ -521,8 +521,9 @@ impl DmlExecutor {
                         let existing =
                             index_btree.get_tuple_at_unchecked(position, &index_schema)?;
 
-                        // If it is deleted we need to un-delete it
-                        if existing.is_deleted() {
+                        // If it is deleted we need to un-delete it; an entry left behind by a transaction that
+                        // rolled back is dead as well and must be replaced, or the new row has no index entry.
+                        if existing.is_deleted() || snapshot.is_transaction_aborted(existing.xmin()) {
                             index_btree.update(index_root, index_tuple, index_schema)?;
                         };
 
